@@ -1,14 +1,19 @@
 import Solvor.Common.Proto
 import Solvor.Sat.Model
+import Solvor.Sat.Cdcl
 /-! Sat: line-protocol handler.
 
-request `["case", clauses, assumptions, single, multi, wantEnum]`
+request `["case", clauses, assumptions, single, multi, wantEnum, [maxConflicts, maxRestarts, solutionLimit, lubyFactor]]`
   clauses     : list of clauses (lists of ints)
   assumptions : list of ints
   single      : `Result.solution` as a list with 0 or 1 assignments, an assignment being a list
                 of `[var, 0|1]` pairs;  multi : `Result.solutions` likewise (empty if None)
   wantEnum    : bool – also enumerate all models over the variables `1..nVars` (small inputs only)
-reply `[wf, sat, nVars, count|null, singleChecks, multiChecks, distinct, branches, conflicts, statOk]`
+reply `[wf, sat, nVars, count|null, singleChecks, multiChecks, distinct, branches, conflicts, statOk, mirror]`
+  mirror    : `Sat.Cdcl.solve` on the same input and parameters:
+              `[status, solution|null, #solutions|null, solution = single, solutions = multi,
+                [decisions, propagations, conflicts, restarts, learned, loop iterations, fuel], first 3 solutions,
+                [learned clauses checked with the verified `entailsB`, of which not entailed]]`
   wf        : no literal is 0 (hypothesis of `dpll_sat_iff` / `dpll_unsat_iff`)
   sat       : verdict of the proved reference DPLL on clauses + assumptions
   count     : number of models over `1..nVars` (proved-complete enumerator), if requested
@@ -54,20 +59,41 @@ def parseAsgs (v : Val) : Option (List AList) := do
   let ys ← xs.mapM Val.toIntss?
   ys.mapM parseAsg
 
+def asgVal (m : AList) : Val := Val.arr (m.map fun p => Val.arr [Val.int p.1, Val.int (if p.2 then 1 else 0)])
+
 def handle (line : String) : String :=
   match request line with
-  | some ("case", [cls, asm, single, multi, we]) =>
-    match cls.toIntss?, asm.toInts?, parseAsgs single, parseAsgs multi, we.toBool? with
-    | some f, some as, some s1, some ms, some we =>
+  | some ("case", [cls, asm, single, multi, we, prm]) =>
+    match cls.toIntss?, asm.toInts?, parseAsgs single, parseAsgs multi, we.toBool?, prm.toNats? with
+    | some f, some as, some s1, some ms, some we, some [mc, mr, sl, lf] =>
       let g := withAssumptions f as
       let sat := solve g
       let n := nVars f as
       let cnt : Option Nat := if we then some (enumModels (List.range' 1 n) g).length else none
       let (r, br, cf) := dpllStat (size g + g.length + 1) g
+      -- the CDCL mirror (R_trace side)
+      let o := Cdcl.solve f as ⟨mc, mr, sl, lf⟩
+      -- every logged learned clause must be entailed by the clauses + the blocking clauses added before it
+      let (_, chk, bad) := if n ≤ 60 then
+          o.log.foldl (fun (acc : Cnf × Nat × Nat) e =>
+            let (db, chk, bad) := acc
+            if e.1 then (e.2.toList :: db, chk, bad)
+            else if entailsB db e.2.toList then (db, chk + 1, bad) else (db, chk + 1, bad + 1)) (f, 0, 0)
+        else (f, 0, 0)
+      let mSingle : List AList := match o.solution with | some m => [m] | none => []
+      let mMulti : List AList := o.solutions.getD []
+      let eqS := decide (mSingle = s1)
+      let eqM := decide (mMulti = ms)
+      let mirror := Val.arr [Val.str (if o.status == .UNBOUNDED then "FUEL" else o.status.name),
+        Val.ofOpt asgVal o.solution, Val.ofOpt (fun (x : List AList) => Val.int x.length) o.solutions,
+        Val.bool eqS, Val.bool eqM,
+        Val.arr [Val.int o.decisions, Val.int o.propagations, Val.int o.conflicts, Val.int o.restarts,
+          Val.int o.learnedTotal, Val.int o.iterations, Val.int o.fuel],
+        Val.arr ((mMulti.take 3).map asgVal), Val.arr [Val.int chk, Val.int bad]]
       (Val.arr [Val.bool (wfB g), Val.bool sat, Val.int n, Val.ofOpt (fun (k : Nat) => Val.int k) cnt,
         Val.arr (s1.map (checkVal f as)), Val.arr (ms.map (checkVal f as)), Val.bool (distinctB (List.range' 1 n) ms),
-        Val.int br, Val.int cf, Val.bool (r == sat)]).render
-    | _, _, _, _, _ => err "bad arguments"
+        Val.int br, Val.int cf, Val.bool (r == sat), mirror]).render
+    | _, _, _, _, _, _ => err "bad arguments"
   | some ("luby", [n]) =>
     match n.toNat? with
     | some n => (Val.ofNats ((List.range' 1 n).map luby)).render
